@@ -30,6 +30,10 @@ type Families struct {
 	WithdrawRm bool // RemoveWithdrawRecords
 	RemoveVal  bool // RemoveValidator (exported, on vm.StateDB, but never called by the node)
 	StakingRec bool // AddStakingRecord / AddPendingRelationship (never journaled by design)
+	// HotStorage: most ops hit the same few storage slots of one contract with values from a
+	// three-element set (a contract toggling a flag across the transactions of a block), so that a
+	// slot is written back to an earlier / its committed value again and again
+	HotStorage bool
 }
 
 func AllProduction() Families {
@@ -466,7 +470,33 @@ func (w *World) addWithdraw(val, delegator, operator common.Address, amt *big.In
 }
 
 // Op applies one random operation of any enabled family.
+// HotStorageOp writes (or reads) one of two slots of one contract; values 0,1,2.
+func (w *World) HotStorageOp() {
+	st, r := w.St, w.R
+	a := w.Extras[0]
+	if !st.Exist(a) {
+		w.log("CreateAccount %x (+nonce 1)", a[:4])
+		st.CreateAccount(a)
+		st.SetNonce(a, 1)
+		return
+	}
+	k := w.U.Slots[r.Intn(2)]
+	if r.Intn(6) == 0 {
+		w.log("GetState/GetCommittedState %x %x", a[:4], k[31:])
+		st.GetState(a, k)
+		st.GetCommittedState(a, k)
+		return
+	}
+	v := common.BigToHash(big.NewInt(int64(r.Intn(3))))
+	w.log("SetState %x %x=%x", a[:4], k[31:], v[31:])
+	st.SetState(a, k, v)
+}
+
 func (w *World) Op() {
+	if w.Fam.HotStorage && w.R.Intn(10) < 7 {
+		w.HotStorageOp()
+		return
+	}
 	valSide := w.Fam.Validator || w.Fam.Delegation || w.Fam.WithdrawQ || w.Fam.WithdrawRm || w.Fam.RemoveVal || w.Fam.StakingRec
 	if w.Fam.Account && (!valSide || w.R.Intn(2) == 0) {
 		w.AccountOp()
